@@ -32,7 +32,8 @@ def load_all(cases, tag, timeout=1500):
     """cases: list of (id, bytes) -> {id: outcome}"""
     d = vlib.subdir("c08")
     inp, outp = os.path.join(d, "in_%s.ndjson" % tag), os.path.join(d, "out_%s.ndjson" % tag)
-    vlib.write_ndjson(inp, [{"id": i, "src": "", "budget": -1, "loadb64": base64.b64encode(b).decode() or "", } for i, b in cases])
+    # small inputs load in milliseconds: 10 s without an answer is a hang; the deep-nesting inputs get the long deadline
+    vlib.write_ndjson(inp, [{"id": i, "src": "", "budget": -1, "loadb64": base64.b64encode(b).decode() or "", "deadline_ms": 10000 if len(b) < 100000 else 0} for i, b in cases])
     vlib.run_harness(["lua-run", "--in", inp, "--out", outp, "--deadline", "90s"], timeout=timeout)
     outs = {o["id"]: o["outcome"] for o in vlib.read_ndjson(open(outp).read())}
     os.remove(inp)
